@@ -1,0 +1,8 @@
+//go:build !verif && unix
+
+package display
+
+import "os"
+
+// verifResizeChan is a no-op without the "verif" build tag.
+func verifResizeChan(chan os.Signal, chan bool) {}
